@@ -34,6 +34,7 @@ type vsStep struct {
 	St   struct {
 		Cm map[string]map[string]int `json:"cm"`
 		Dm map[string][][2]int       `json:"dm"`
+		Un map[string][]int          `json:"un"`
 	} `json:"st"`
 }
 
@@ -701,6 +702,15 @@ func (r *vsRunner) domainsDrift(st vsStep) string {
 	for ch, key := range vsKeys {
 		u := r.db.mu.dbs.unary[key]
 		for x := 0; x <= r.maxT; x++ {
+			skip := false
+			for _, y := range st.St.Un[ch] {
+				if y == x {
+					skip = true
+				}
+			}
+			if skip {
+				continue
+			}
 			ts := r.c.ts(x)
 			real, err := u.HasDataFor(context.Background(), telem.TimeRange{Start: ts, End: ts + 1})
 			if err != nil {
